@@ -129,9 +129,9 @@ META = {
         "note": "Block writes are atomic in the fake store; replicas share one store as in the statement.",
     },
     "C18": {
-        "technique": "property-based testing (rapid): stored bytes scanned for every binary/textual form of each link; round-trip with same / absent / different keys",
+        "technique": "property-based testing (rapid): stored bytes - and what the block's text fields carry under base64/hex - scanned for every binary/textual form of each link and for fragments of them (16 characters / 10 bytes); round-trip with same / absent / different keys",
         "text": "Generated link-encrypted entries and small logs: no form of any predecessor/reference/earlier block appears in the stored bytes and the block has no traversable links; same-key readers recover identical lists, verify, merge and load; no-key / other-key readers get no links. Exploration.",
-        "note": "Leak detection is by substring search over a fixed list of encodings (raw, multihash, digest, hex, base32/36/58/64).",
+        "note": "Leak detection is by substring and fragment search over a fixed list of encodings (raw, multihash, digest, hex, base32/36/58/64), in the block and in its base64/hex-decoded text fields.",
     },
     "C19": {
         "technique": "property-based testing (rapid): order laws checked on all pairs/triples of generated entry pools; sort checked as metamorphic relation over generated permutations",
